@@ -18,8 +18,9 @@ def setup(d, sc):
     dec = sc["dec"]
     info = []
     for i, (op, eff) in enumerate(zip(sc["ops"], sc["effects"]), 1):
-        name = "x%d%s" % (i, op["suffix"])
-        outname = "x%d%s" % (i, eff["outname"][1:])
+        bare = op.get("stem", "x") == ""
+        name = op["suffix"] if bare else "x%d%s" % (i, op["suffix"])
+        outname = eff["outname"] if bare else "x%d%s" % (i, eff["outname"][1:])
         plain = P[i - 1]
         if not dec and op["content"] == "bad":
             plain = b"this is not a bzip2 file at all, just text\n" * 3      # any bytes are fine to compress
